@@ -23,15 +23,6 @@ NONPRIV = {
 }
 
 
-def users_index_expr(e):
-    for x in walk(e):
-        if x.get("k") == "Sub":
-            b = sk(x["a"][0])
-            if b.get("k") == "Ref" and b["ref"]["name"] == "users" and b["ref"]["rk"] == "global":
-                return sk(x["a"][1])
-    return None
-
-
 def form_auth(d, xk):
     """authenticated(x): flag set, slot active, index in range."""
     return (guard.d_holds(d, "!=", "users[%s].authenticated" % xk, 0)
@@ -57,14 +48,11 @@ _EXPIRED = re.compile(r"^users\[(.+)\]\.last_pkt \+ \d+$")
 
 def form_free(d, xk):
     """inside the allocator: the slot was unused or expired when tested."""
-    for f in d:
-        if f.kind != "hist":
-            continue
-        g = f.fact
-        if g.key[0] == "users[%s].active" % xk and g.op == "==" and g.key[2] == 0:
+    for lk, op, rk, g in guard.iter_cmp(d, hist=True):
+        if lk == "users[%s].active" % xk and op == "==" and rk == 0:
             return True
-        m = _EXPIRED.match(g.key[0]) if isinstance(g.key[0], str) else None
-        if m and m.group(1) == xk and g.op == "<" and g.key[2] == "time(0)":
+        m = _EXPIRED.match(lk) if isinstance(lk, str) else None
+        if m and m.group(1) == xk and op == "<" and rk == "time(0)":
             return True
     return False
 
@@ -114,8 +102,8 @@ def run(P, chk, tier):
                 missing.append("active != 0")
             if not guard.d_holds(d, "==", "users[%s].disabled" % p0, 0):
                 missing.append("disabled == 0")
-            if not any(g.kind == "cmp" and isinstance(g.key[0], str) and _EXPIRED.match(g.key[0])
-                       and g.op in (">", ">=") and g.key[2] == "time(0)" for g in d):
+            if not any(isinstance(lk, str) and _EXPIRED.match(lk) and op in (">", ">=") and rk == "time(0)"
+                       for lk, op, rk, g in guard.iter_cmp(d)):
                 missing.append("liveness test last_pkt + K >= time()")
             if need_auth and not guard.d_holds(d, "!=", "users[%s].authenticated" % p0, 0):
                 missing.append("authenticated != 0")
@@ -130,70 +118,11 @@ def run(P, chk, tier):
                   "authenticated(x) (flag, active, index range), by the occupied-holder form (R7), or - for "
                   "plain field initialisation only - by the fresh-slot / free-slot forms of the allocator; "
                   "obligations on parameters propagate to every call site", "E1 + E6", floor=60)
-    requires = {}       # id(F) -> {param index: first reason}
-    funcs = {id(f): f for f in reach}
-
-    def check_site(f, node, xexpr, kind, desc):
-        """Returns True if discharged locally, else registers/flags."""
-        an = E.analysis(f)
-        ds = an.before_node(node["n"])
-        xk = pp(xexpr) if xexpr is not None else None
-        if ds is None:
-            chk.site(r2, f, ir.loc(node), desc, True, "unreachable code")
-            return
-        forms = []
-
-        def ok(d):
-            if xk is None:
-                return auth_some(d) is not None
-            if form_auth(d, xk):
-                forms.append("authenticated")
-                return True
-            if kind in ("write", "arg", "call") and form_holder(d, xk):
-                forms.append("occupied holder (R7)")
-                return True
-            if kind == "write" and form_fresh(d, xk):
-                forms.append("fresh slot")
-                return True
-            if kind == "write" and form_free(d, xk):
-                forms.append("free slot (allocator)")
-                return True
-            return False
-        bad = [d for d in ds if not ok(d)]
-        if not bad:
-            chk.site(r2, f, ir.loc(node), desc, True, "guard: " + ", ".join(sorted(set(forms))) if forms else "guard: authenticated(some)")
-            return
-        pi = C.param_of(f, xexpr) if xexpr is not None else None
-        if pi is not None:
-            if pi not in requires.setdefault(id(f), {}):
-                requires[id(f)][pi] = "%s at %s:%d" % (desc, f.unit.file, ir.loc(node))
-            chk.site(r2, f, ir.loc(node), desc, True,
-                     "obligation moved to the callers of %s (parameter %s)" % (f.name, f.params[pi]["ref"]["name"]))
-            return
-        chk.site(r2, f, ir.loc(node), desc, False,
-                 "no dominating authenticated(%s) on some path" % (xk or "any session"),
-                 witness={"facts_on_a_failing_path": C.fmt_d(bad[0], 30)})
-
-    nsites = 0
+    sites = []
     for f in reach:
-        # (a) writes into users[x].F
-        for node, pth, pt, val, kind in C.writes_in(P, f):
-            ua = C.users_access(pth)
-            if ua is None:
-                continue
-            xk, fld = ua
-            if fld in NONPRIV:
-                continue
-            tgt = node["a"][0] if node.get("k") in ("Bin", "Un") else None
-            xexpr = users_index_expr(tgt) if tgt is not None else None
-            if xexpr is None and node.get("k") == "Call":
-                for a in node.get("a", ()):
-                    if ir.pointee_path(a) == pth:
-                        xexpr = users_index_expr(a)
-            if xexpr is None:
-                continue
-            check_site(f, node, xexpr, "write", "write users[%s].%s" % (xk, fld))
-            nsites += 1
+        # (a) writes into privileged fields of users[x]
+        for node, xexpr, xk, fld, val, kind in C.users_write_sites(P, f, NONPRIV):
+            sites.append((f, node, xexpr, "write", "write users[%s].%s" % (xk, fld)))
         for b, c in f.calls():
             # (c) part of users[x] handed to a callee
             extw = {ir.path_str(p) for p, _ in P.extern_writes(c) if p} if P.callee(c, f) is None and c.get("fn") else set()
@@ -202,12 +131,9 @@ def run(P, chk, tier):
                     continue
                 pth = ir.pointee_path(a)
                 ua = C.users_access(pth)
-                if ua is None or (pth and ir.path_str(pth) in extw):
+                if ua is None or (pth and ir.path_str(pth) in extw) or ua[1] in NONPRIV:
                     continue
-                if ua[1] in NONPRIV:
-                    continue
-                xexpr = users_index_expr(a)
-                check_site(f, c, xexpr, "arg", "pass %s to %s()" % (pp(a), c.get("fn") or "?"))
+                sites.append((f, c, C.users_index_expr(a), "arg", "pass %s to %s()" % (pp(a), c.get("fn") or "?")))
             # (d) tun write
             if c.get("fn") == "write_tun":
                 sess = []
@@ -218,9 +144,9 @@ def run(P, chk, tier):
                 if sess:
                     for pi in sess:
                         ref = {"k": "Ref", "ref": f.params[pi]["ref"], "t": f.params[pi]["t"]}
-                        check_site(f, c, ref, "call", "write_tun() on behalf of users[%s]" % f.params[pi]["ref"]["name"])
+                        sites.append((f, c, ref, "call", "write_tun() on behalf of users[%s]" % f.params[pi]["ref"]["name"]))
                 else:
-                    check_site(f, c, None, "call", "write_tun()")
+                    sites.append((f, c, None, "call", "write_tun()"))
     # (e) address disclosure inside the request dispatcher
     for b, x in dispatcher.all_nodes():
         hit = None
@@ -229,64 +155,22 @@ def run(P, chk, tier):
         elif x.get("k") == "Mem" and x["field"] == "destination":
             hit = pp(x)
         if hit:
-            check_site(dispatcher, x, None, "read", "read of server address %s" % hit)
+            sites.append((dispatcher, x, None, "read", "read of server address %s" % hit))
 
-    # propagate parameter obligations to call sites
-    work = list(requires.keys())
-    done = set()
-    while work:
-        fid = work.pop()
-        f = funcs[fid]
-        for pi, reason in list(requires[fid].items()):
-            if (fid, pi) in done:
-                continue
-            done.add((fid, pi))
-            callers = [(g, c) for g, c in P.callers_of(f) if id(g) in reach_ids]
-            if not callers:
-                chk.site(r2, f, f.line, "entry point %s needs authenticated(%s)" % (f.name, f.params[pi]["ref"]["name"]),
-                         False, "no caller establishes it (%s)" % reason)
-            for g, c in callers:
-                args = c.get("a", [])
-                if pi >= len(args):
-                    continue
-                a = sk(args[pi])
-                an = E.analysis(g)
-                ds = an.before_node(c["n"])
-                desc = "call %s(%s=%s)" % (f.name, f.params[pi]["ref"]["name"], pp(a))
-                if ds is None:
-                    chk.site(r2, g, ir.loc(c), desc, True, "unreachable code")
-                    continue
-                xk = pp(a)
-                forms = []
-
-                def ok(d):
-                    if form_auth(d, xk):
-                        forms.append("authenticated")
-                        return True
-                    if form_holder(d, xk):
-                        forms.append("occupied holder (R7)")
-                        return True
-                    return False
-                bad = [d for d in ds if not ok(d)]
-                if not bad:
-                    chk.site(r2, g, ir.loc(c), desc, True, "guard: " + ", ".join(sorted(set(forms))))
-                    continue
-                pj = C.param_of(g, a)
-                if pj is not None:
-                    if pj not in requires.setdefault(id(g), {}):
-                        requires[id(g)][pj] = "%s at %s:%d" % (desc, g.unit.file, ir.loc(c))
-                        work.append(id(g))
-                    elif (id(g), pj) not in done:
-                        work.append(id(g))
-                    chk.site(r2, g, ir.loc(c), desc, True,
-                             "obligation moved to the callers of %s (parameter %s)" % (g.name, g.params[pj]["ref"]["name"]))
-                    continue
-                chk.site(r2, g, ir.loc(c), desc, False,
-                         "callee needs authenticated(%s) (%s) but no guard dominates this call" % (xk, reason),
-                         witness={"facts_on_a_failing_path": C.fmt_d(bad[0], 30)})
-    chk.extra["functions_requiring_authenticated_param"] = sorted(
-        "%s(%s)" % (funcs[fid].name, ",".join(funcs[fid].params[i]["ref"]["name"] for i in sorted(ps)))
-        for fid, ps in requires.items())
+    def form_ok(d, xk, kind):
+        if xk is None:
+            return "authenticated(%s)" % auth_some(d) if auth_some(d) else None
+        if form_auth(d, xk):
+            return "authenticated"
+        if kind in ("write", "arg", "call") and form_holder(d, xk):
+            return "occupied holder (R7)"
+        if kind == "write" and form_fresh(d, xk):
+            return "fresh slot"
+        if kind == "write" and form_free(d, xk):
+            return "free slot (allocator)"
+        return None
+    req = C.check_obligations(P, E, chk, r2, reach, sites, form_ok, "authenticated")
+    chk.extra["functions_requiring_authenticated_param"] = sorted("%s(%s)" % (k, ",".join(v)) for k, v in req.items())
 
     # ------------------------------------------------------------------ R3
     r3 = chk.rule("C03.R3", "flag set only after the hash matches",
@@ -392,68 +276,17 @@ def run(P, chk, tier):
                   "every users[e] subscript in packet-reachable server code has 0 <= e < created_users/usercount "
                   "(loop bound, guard summary, finder result) or e == 0; obligations on parameters propagate to callers",
                   "E1", floor=150)
-    rreq = {}
+    sites = []
     for f in reach:
-        an = None
         seen = set()
         for node, idx in C.users_subscripts(f):
             key = (pp(idx), E.locate(f, node["n"]))
             if key in seen:
                 continue
             seen.add(key)
-            an = an or E.analysis(f)
-            ds = an.before_node(node["n"])
-            xk = pp(idx)
-            desc = "users[%s]" % xk
-            if ds is None:
-                chk.site(r6, f, ir.loc(node), desc, True, "unreachable")
-                continue
-            # facts established by the very condition this subscript sits in
-            bad = [d for d in ds if not C.in_range_facts(d, xk)]
-            if not bad:
-                chk.site(r6, f, ir.loc(node), desc, True, "0 <= %s < bound" % xk)
-                continue
-            pi = C.param_of(f, idx)
-            if pi is not None:
-                rreq.setdefault(id(f), {}).setdefault(pi, "%s at %s:%d" % (desc, f.unit.file, ir.loc(node)))
-                chk.site(r6, f, ir.loc(node), desc, True, "obligation moved to the callers of %s" % f.name)
-                continue
-            chk.site(r6, f, ir.loc(node), desc, False, "index not proven in range on some path",
-                     witness={"facts_on_a_failing_path": C.fmt_d(bad[0], 30)})
-    work = list(rreq.keys())
-    done = set()
-    while work:
-        fid = work.pop()
-        f = funcs[fid]
-        for pi, reason in list(rreq[fid].items()):
-            if (fid, pi) in done:
-                continue
-            done.add((fid, pi))
-            for g, c in P.callers_of(f):
-                if id(g) not in reach_ids:
-                    continue
-                args = c.get("a", [])
-                if pi >= len(args):
-                    continue
-                a = sk(args[pi])
-                xk = pp(a) if cval(a) is None else str(cval(a))
-                ds = E.analysis(g).before_node(c["n"])
-                desc = "call %s(%s=%s)" % (f.name, f.params[pi]["ref"]["name"], xk)
-                if ds is None:
-                    continue
-                bad = [d for d in ds if not C.in_range_facts(d, xk)]
-                if not bad:
-                    chk.site(r6, g, ir.loc(c), desc, True, "argument in range")
-                    continue
-                pj = C.param_of(g, a)
-                if pj is not None:
-                    if pj not in rreq.setdefault(id(g), {}):
-                        rreq[id(g)][pj] = reason
-                    work.append(id(g))
-                    chk.site(r6, g, ir.loc(c), desc, True, "obligation moved to the callers of %s" % g.name)
-                    continue
-                chk.site(r6, g, ir.loc(c), desc, False, "callee indexes users[] with this argument (%s) but it is not range-checked here" % reason,
-                         witness={"facts_on_a_failing_path": C.fmt_d(bad[0], 30)})
+            sites.append((f, node, idx, "index", "users[%s]" % pp(idx)))
+    C.check_obligations(P, E, chk, r6, reach, sites,
+                        lambda d, xk, kind: "0 <= %s < bound" % xk if C.in_range_facts(d, xk) else None, "in-range")
 
     # ------------------------------------------------------------------ R7
     r7 = chk.rule("C03.R7", "occupied holder implies logged in",
